@@ -3,6 +3,7 @@ C07 — a command is done exactly when nothing more can happen.
 Model: `runTaskF` (executor.rs:187-229), `isDoneNow` (mod.rs:436-440), `pollNextF` (stream.rs:23-52).
 -/
 import CruxVerif.Lemmas.RtTask
+import CruxVerif.Lemmas.K2Evict
 namespace Props.C07
 open M.Rt
 
@@ -18,6 +19,40 @@ theorem evict_only_if_unreachable (poll : Waker → Sink → Block → World →
 theorem held_task_never_discarded (poll : Waker → Sink → Block → World → Option (PollRes × World)) (cid tid : Nat)
     (w w' : World) (st : TaskState) (h : runTaskF poll cid tid w = some (st, w'))
     (hheld : w'.holders w.nextSerial ≠ 0) : st ≠ .cancelled := runTaskF_not_evicted_if_held poll cid tid w w' st h hheld
+
+/-- **Eviction is sound** (invariant K2, "no lost wake-up at a leaf"): when `run_task` discards a task whose future is a
+    block of the task language without hosted commands (every block a user task can be; ids in range), the future is
+    suspended only at requests whose channel has already closed — `deadOnlyB`. Contrapositive: while a request, a stream,
+    a join handle or a pending self-wake the task waits on is alive, the task is not discarded, because one poll leaves
+    the polling waker registered at every such point (`pollBlock_good`). Holds for every fuel and every world. -/
+theorem evict_sound (pn : Waker → Nat → World → Option (NextRes × World)) (f : Nat) (cid tid : Nat) (w w' : World)
+    (h : runTaskF (pollBlock pn f) cid tid w = some (.cancelled, w')) :
+    ∃ t b w1, (w.cmd cid).tasks.get? tid = some t ∧
+      pollBlock pn f (.task cid tid w.nextSerial) (.cmd cid) t.fut { w with nextSerial := w.nextSerial + 1 } = some (.pending b, w1) ∧
+      (hostFreeB t.fut = true → inRangeB w.leaves.length w.metas.length t.fut = true → deadOnlyB b = true) :=
+  evicted_task_is_dead pn f cid tid w w' h
+
+/-- the same for the executor as instantiated (`runTask`, nesting depth `depthFuel`) -/
+theorem evict_sound_runTask (cid tid : Nat) (w w' : World) (h : runTask cid tid w = some (.cancelled, w')) :
+    ∃ t b, (w.cmd cid).tasks.get? tid = some t ∧
+      (hostFreeB t.fut = true → inRangeB w.leaves.length w.metas.length t.fut = true → deadOnlyB b = true) := by
+  obtain ⟨t, b, _, hg, _, hd⟩ := evicted_task_is_dead _ loopFuel cid tid w w' h
+  exact ⟨t, b, hg, hd⟩
+
+/-- one poll of a host-free block leaves the polling waker registered at every point the block is suspended at
+    (or the point is a closed request), and touches other registrations only monotonically -/
+theorem poll_parks (pn : Waker → Nat → World → Option (NextRes × World)) (f : Nat) (wk : Waker) (sink : Sink) (b b' : Block)
+    (w w' : World) (h : pollBlock pn f wk sink b w = some (.pending b', w')) (hf : hostFreeB b = true)
+    (hr : inRangeB w.leaves.length w.metas.length b = true) :
+    ParkedB wk w' b' ∧ hostFreeB b' = true ∧ inRangeB w'.leaves.length w'.metas.length b' = true :=
+  (pollBlock_good pn f wk sink b w _ w' h hf hr).2
+
+/-- non-vacuity: a task waiting on a request whose sender is gone is evicted, and the hypotheses of `evict_sound` hold -/
+def exWorld : World :=
+  { cmds := [{ tasks := ((M.Slab.empty : M.Slab Task).insert ⟨0, .mk {} (.req 0 0) []⟩).2, abortFlag := 0 }],
+    leaves := [{ senderAlive := false }], metas := [{}] }
+example : (runTaskF (pollBlock (fun _ _ _ => none) 2) 0 0 exWorld).map (·.1) = some .cancelled := by decide
+example : hostFreeB (.mk {} (.req 0 0) []) = true ∧ inRangeB 1 1 (.mk {} (.req 0 0) []) = true := by decide
 
 /-- done ⇔ no task remains and no output is pending -/
 theorem done_iff (w : World) (cid : Nat) :
